@@ -72,8 +72,8 @@ claimed = {
         "one such line per push, for the entry it pushes; in Parser the reduce line is logged after the reduction and before the goto push and carries the rule actually "
         "reduced, the state actually pushed and the name of the lookahead that triggered it. Generator side: buildTranslate emits symbol id -> RemoveTempName(name) and "
         "case i -> text of visitor rule i-1 - left-hand side AND the display names of all right-hand-side symbols in order; RemoveTempName is proved to show a character literal "
-        "as 'c' and every other name unchanged; grammar rule i is paired with visitor rule i-1 (BuildLALR1: no rule dropped or reordered).",
-   note=DRVNOTE + " TraceReduce and TraceTranslate are the generated switches (trusted contracts tied to the grammar by the emits obligations). That the printed run is a legal "
+        "as 'c' and every other name unchanged; grammar rule i is paired with visitor rule i-1 (BuildLALR1: no rule dropped or reordered). " + STAGES,
+   note=DRVNOTE + " TraceReduce and TraceTranslate are the generated switches: their frame is checked on every rendering (extraction obligation shape:translate-cases: nothing but `case <int>:` with one literal print / assignment, no default clause), their cases are tied to the grammar by the emits obligations. That the printed run is a legal "
         "run of the automaton follows from C01's step contracts. ",
    design="§S.2 C17", technique="contract-based deductive verification with a ghost output log + emits contracts"),
  "C09": dict(
@@ -188,7 +188,8 @@ claimed = {
  "C15": dict(
    text=DRV + "C15: ParserInit establishes StackPointer==1 with bottom entry (0,$,zero); PushStateSym never writes below the old stack pointer; every stack read of the driver is "
         "below the stack pointer (bounds obligations under INV); $$ of every reduction is a fresh zero value (no state carried between reductions or parses); object-mode "
-        "methods modify only their own context (frame obligations). TypeScript: initialize() leaves a NEW one-entry array (0, $, no value) and StackPointer == 1.",
+        "methods modify only their own context (frame obligations). Global mode: PushContex appends exactly the current (stack, stack pointer) and PopContex restores exactly the last saved pair and removes only it "
+        "(nested parses inside actions); MakeParserContext returns a NEW object in the initial configuration and touches no other context. TypeScript: initialize() leaves a NEW one-entry array (0, $, no value) and StackPointer == 1.",
    note=DRVNOTE + " Data-race freedom of different contexts is argued from the frames (disjoint write sets, read-only tables), not model-checked. Reuse of the stack's backing "
         "array across ParserInit (aliasing of a previously returned *ValType) is outside the value model of slices.",
    design="§5 C15", technique="contract-based deductive verification of the rendered driver (postconditions + frames)"),
